@@ -13,7 +13,7 @@ ASSUMPTIONS = ["for a task awaited by two parents nothing is asserted about whic
 
 def strat_async(tier):
     return gen.programs(gen.Cfg(max_tasks=12 if tier == "quick" else 40, sync=True, ctx=("rec", "rec", "ov"), dag=True, convs=("call", "value", "wrapper"),
-                                shapes=("chain", "tree", "comb", "stagger", "stagger", "reentry", "reentry", "diamond", "free", "free")))
+                                shapes=("ctxcomb", "ctxcomb", "chain", "tree", "comb", "stagger", "reentry", "reentry", "diamond", "free", "free")))
 
 
 def exited_by_exception(env):
